@@ -36,6 +36,14 @@ func genC14Arg(t *rapid.T) c14Arg {
 	case 7:
 		bad := []any{1, keyT("custom"), []int{1, 2}, true, 2.5, struct{ A int }{1}, []byte("k"), &struct{}{}}
 		return c14Arg{"badkey", bad[rapid.IntRange(0, len(bad)-1).Draw(t, "badKey")]}
+	case 8:
+		// a value implementing several of the interfaces zap.Any looks for; one
+		// that is an error counts as a bare error wherever it is not a pair's value
+		v, _ := genMultiIface(t)
+		if _, isErr := v.(error); isErr {
+			return c14Arg{"err", v}
+		}
+		return c14Arg{"value", v}
 	default:
 		// arbitrary value, including every dynamic type zap.Any special-cases
 		for {
